@@ -501,6 +501,9 @@ func (t *Trans) execInvoke(fr *Frame, c *ssa.CallCommon, args []string, pos toke
 		}
 	}
 	t.safe(fr, "nil-interface-call."+c.Method.Name(), fmt.Sprintf("(not (= %s vnil))", recv), pos)
+	if t.P.cloverIface(recvT) {
+		t.assume(fr.curReach, fmt.Sprintf("(=> ((_ is vref) %s) (not (= (rval %s) null)))", recv, recv))
+	}
 	// 2. interface method contract
 	if ic := t.P.IfaceContract(recvT, c.Method); ic != nil {
 		sig := c.Method.Type().(*types.Signature)
@@ -587,8 +590,18 @@ func ifaceName(t types.Type) string {
 // callDynamic: call through a function value of unknown identity.
 func (t *Trans) callDynamic(fr *Frame, c *ssa.CallCommon, args []string, pos token.Pos) []string {
 	fv := fr.val(c.Value)
-	t.safe(fr, "nil-func-call", fmt.Sprintf("(not (= %s fnil))", fv), pos)
 	sig := c.Signature()
+	fieldCB := false
+	if u, ok := c.Value.(*ssa.UnOp); ok && u.Op == token.MUL {
+		if fa, ok := u.X.(*ssa.FieldAddr); ok {
+			if t.P.cbField(fa.X.Type().Underlying().(*types.Pointer).Elem(), fa.Field) != nil {
+				fieldCB = true // every value stored in such a field was checked to be a function satisfying its contract
+			}
+		}
+	}
+	if !fieldCB {
+		t.safe(fr, "nil-func-call", fmt.Sprintf("(not (= %s fnil))", fv), pos)
+	}
 	// a function parameter of the function under verification: its callback contract
 	if p, ok := c.Value.(*ssa.Parameter); ok && fr.contract != nil {
 		if cb := t.P.cbParam(fr.contract.Key, p.Name()); cb != nil {
